@@ -58,7 +58,7 @@ theorem inv_done_flush {cfg : Cfg} {s : St} {d : Disk} (h : Inv cfg s d) {j : Jo
       rcases q2 p hp hjn0 with h1 | h1 | h1
       · exact Or.inl h1
       · -- the frozen journal: irrelevant after the commit, or empty
-        rcases frozenOK_iff.1 r7 with ⟨_, h3⟩ | ⟨fz, jf, h2, h3, f1, _, _, _, f5, _⟩
+        rcases frozenOK_iff.1 r7 with ⟨_, h3⟩ | ⟨fz, jf, h2, h3, f1, f2, _, _, f5, _⟩
         · rw [h3] at h1; cases h1
         rw [h3] at h1; cases h1
         rw [h2, h3] at hkind
@@ -66,7 +66,17 @@ theorem inv_done_flush {cfg : Cfg} {s : St} {d : Disk} (h : Inv cfg s d) {j : Jo
         | none =>
           rw [he] at hkind
           simp only at hkind
-          exact Or.inr (Or.inr (by rw [f5 p hp rfl, hkind.1]))
+          obtain ⟨_, b5, c5, e5, e6⟩ := f5 p hp rfl
+          rw [hkind.1] at b5 c5 e6
+          refine Or.inr (Or.inr ⟨fun x hx => ⟨fun hm => (by cases b5 x hx hm), ?_⟩, e5, fun hx => ?_⟩)
+          rotate_left
+          · apply List.eq_nil_iff_forall_not_mem.2
+            intro x hxa
+            cases e6 hx x hxa
+          show x.fin ≤ s.seq + 1
+          rcases c5 x hx with h4 | h4
+          · cases h4
+          · omega
         | some e =>
           rw [he] at hkind
           simp only at hkind
@@ -195,10 +205,15 @@ theorem inv_done_recovFinal {cfg : Cfg} {s : St} {d : Disk} (h : Inv cfg s d) {j
     · show Holds (lookup d.journals s.jcur) _
       have hl : lookup d.journals pn.1 = some pn.2 := lookup_of_mem hnd (by cases pn; exact hpn)
       rw [hjc, ← hpnn, hl]
-      show pn.2.all = [] ++ inflight .idle
-      rcases hall pn hpn with h1 | ⟨_, h1⟩
-      · omega
-      · rw [h1]; rfl
+      have hemp : pn.2.all = [] := by
+        rcases hall pn hpn with h1 | ⟨_, h1⟩
+        · omega
+        · exact h1
+      show JournalHolds _ pn.2 ([] ++ inflight .idle) s.seq
+      refine ⟨fun x hx => (by cases hx), fun x hx _ => ?_, fun x hx => ?_, fun _ => hemp, fun _ x hx => ?_⟩
+      · rw [hemp] at hx; cases hx
+      · rw [hemp] at hx; cases hx
+      · rw [hemp] at hx; cases hx
     · intro p hp
       rw [hjc]
       rcases hall p hp with h1 | ⟨h1, _⟩
@@ -319,7 +334,24 @@ theorem inv_done_tr {cfg : Cfg} {s : St} {d : Disk} (h : Inv cfg s d) {j : Job} 
     exact ⟨hbv.1, hbv.2.1, hbv.2.2⟩
   · intro _
     obtain ⟨r1, r2, r3, r4, r5, r6, r7, r8, r9⟩ := hrun
-    refine ⟨⟨r1.1, trivial⟩, ⟨MfdOK.nojob rfl hfd, r2.2⟩, r3, r4, r5, ?_, ?_, r8, fun _ => ?_⟩
+    have hsome : s.tr.isSome = true := by rw [hg]; rfl
+    refine ⟨⟨r1.1, trivial⟩, ⟨MfdOK.nojob rfl hfd, r2.2⟩, ?_, r4, r5, ?_, ?_, ?_, fun _ => ?_⟩
+    · refine r3.imp (fun jf hjf => ?_)
+      have hemp := hjf.2.2.2.1 hsome
+      rw [hmem, hw]
+      refine ⟨fun x hx => (by cases hx), fun x hx _ => ?_, fun x hx => ?_, fun _ => hemp, fun _ x hx => ?_⟩
+      · rw [hemp] at hx; cases hx
+      · rw [hemp] at hx; cases hx
+      · rw [hemp] at hx; cases hx
+    rotate_left 2
+    · refine r8.imp (fun mf1 hmf1 => hmf1.imp (fun v1 hv1 p hp hge => ?_))
+      rcases hv1 p hp hge with h1 | h1 | h1
+      · exact Or.inl h1
+      · exact Or.inr (Or.inl h1)
+      · have hemp := h1.2.1 hsome
+        refine Or.inr (Or.inr ⟨fun x hx => ?_, fun _ => hemp, fun _ => hemp⟩)
+        rw [hemp] at hx; cases hx
+    rotate_left 1
     · show WSeqOK _
       unfold WSeqOK
       rw [hw]
